@@ -353,6 +353,13 @@ pub fn gen_inputs(cfg: &RunCfg) -> Vec<(String, String)> {
         "o1 MY-CLASS ::= { o2 }\no2 MY-CLASS ::= { o3 }\no3 MY-CLASS ::= { o2 }",
         "C ::= CLASS { &id INTEGER UNIQUE, &Type } WITH SYNTAX { &Type IDENTIFIED BY &id }\nObjs C ::= { { INTEGER (1 ^ 2) IDENTIFIED BY 1 } | { IA5String (SIZE (1..4)) IDENTIFIED BY 2 } }",
         "IdC ::= CLASS { &id INTEGER UNIQUE, &Type } WITH SYNTAX { &Type IDENTIFIED BY &id }\nObjs IdC ::= { { INTEGER (1 ^ 2) IDENTIFIED BY 1 } | { IA5String (SIZE (1..4)) IDENTIFIED BY 2 } }\nUse ::= SEQUENCE { id IdC.&id ({Objs}), v IdC.&Type ({Objs}{@id}) }",
+        // sixth round (list of the C08 sub-agent): an object set written in line in a table constraint; values of types
+        // with a hyphenated name and an anonymous CHOICE / SEQUENCE member
+        "IDD ::= CLASS { &id INTEGER UNIQUE, &Type } WITH SYNTAX { &Type IDENTIFIED BY &id }\nUseD ::= SEQUENCE { id IDD.&id, val IDD.&Type ({ { BOOLEAN IDENTIFIED BY 2 } }{@id}) }",
+        "IDE ::= CLASS { &id INTEGER UNIQUE, &Type } WITH SYNTAX { &Type IDENTIFIED BY &id }\nUseE ::= SET { id IDE.&id, val IDE.&Type ({ { BOOLEAN IDENTIFIED BY 2 } | { NULL IDENTIFIED BY 3 }, ... }{@id}) OPTIONAL }",
+        "My-Type ::= SEQUENCE { c CHOICE { a INTEGER, b BOOLEAN } }\nmy-v My-Type ::= { c a : 5 }",
+        "Ot-Her ::= SEQUENCE { s SEQUENCE { c CHOICE { a INTEGER, b BOOLEAN } } }\not-v Ot-Her ::= { s { c b : TRUE } }",
+        "Ch-Oice ::= CHOICE { c CHOICE { a INTEGER, b BOOLEAN }, d NULL }\nch-v Ch-Oice ::= c : a : 5",
     ];
     for l in lines.iter().skip(2).filter(|l| !l.starts_with("END")).map(|l| l.to_string()).chain(extra.iter().map(|x| x.to_string())) {
         for hdr in ["AUTOMATIC TAGS", "", "EXPLICIT TAGS EXTENSIBILITY IMPLIED"] {
